@@ -139,6 +139,10 @@ func (h *handler) Handle(ctx context.Context, header *protocol.RequestHeader, re
 					continue
 				}
 				if err := h.ensureTopic(ctx, name, 0); err != nil {
+					if errors.Is(err, metadata.ErrInvalidTopic) {
+						// Not a legal topic name: nothing is created, the lookup below reports it as unknown.
+						continue
+					}
 					return nil, fmt.Errorf("auto-create topic %s: %w", name, err)
 				}
 			}
@@ -1243,7 +1247,7 @@ func (h *handler) handleDeleteTopics(ctx context.Context, header *protocol.Reque
 }
 
 func (h *handler) validateCreateTopic(ctx context.Context, topic kmsg.CreateTopicsRequestTopic) error {
-	if topic.Topic == "" || topic.NumPartitions <= 0 {
+	if !metadata.ValidTopicName(topic.Topic) || topic.NumPartitions <= 0 {
 		return metadata.ErrInvalidTopic
 	}
 	replicationFactor := topic.ReplicationFactor
